@@ -3,7 +3,7 @@
 From PyGql Require Import Schema.SchemaFull Schema.SchemaValidateModel Spec.SchemaValidSpec
   Proofs.SchemaValProofs Proofs.SchemaVerdictProofs Spec.SchemaReportSpec Proofs.SchemaReportProofs
   Proofs.SchemaStructuralProofs Proofs.SchemaSoundProofs
-  Proofs.SchemaMemberOrderProofs.
+  Proofs.SchemaMemberOrderProofs Spec.SchemaClaimSpec Proofs.SchemaClaimProofs.
 From Coq Require Import Permutation.
 
 (* The covariance check used for interface implementations decides exactly
@@ -137,6 +137,42 @@ Theorem C13_verdict_member_order : forall s s',
   (validate_model s = [] <-> validate_model s' = []).
 Proof. exact verdict_member_order. Qed.
 Print Assumptions C13_verdict_member_order.
+
+(* Label by label.  [claim s e] (Spec/SchemaClaimSpec.v, one constructor per
+   error kind and position) says what the error asserts about the element it
+   names: the root is missing / not an object type, the name is not a GraphQL
+   name, the member list is empty, the member is repeated, the type is not an
+   output / input type at that position, the chosen resolver does not fit the
+   field's arguments, the listed "interface" is not one / is listed twice, the
+   interface field is missing / not covariantly typed / its argument missing /
+   differently typed / an extra argument is required, the union member is not an
+   object type / repeated.
+   Every reported error's claim is true. *)
+Theorem C13_errors_sound_by_label : forall s e,
+  types_wf s -> In e (validate_model s) -> claim s e.
+Proof.
+  intros s e Hw He. apply claims_sound; [exact Hw|]. apply reported_are_violations. exact He.
+Qed.
+Print Assumptions C13_errors_sound_by_label.
+
+(* Conversely every true claim is reported -- unless a reported error of the
+   same member masks it, and only along [masked_by] (Spec/SchemaReportSpec.v):
+   an invalid type name masks everything about that type; a duplicate field
+   masks that field's output-position, argument and resolver errors (and an input
+   field's position error); a duplicate argument masks its input-position error;
+   'implement once' masks the five interface-implementation errors of that
+   interface; 'expects type' masks the three argument errors of that interface
+   field; 'expects object types' masks 'only once' for that member.  No other
+   label masks any other. *)
+Theorem C13_claims_reported : forall s e,
+  claim s e ->
+  In e (validate_model s)
+  \/ exists m, In m (validate_model s) /\ masked_by (v_label m) (v_label e) /\ same_member m e.
+Proof.
+  intros s e Hc. apply claims_complete in Hc.
+  destruct (all_reported s e Hc) as [H|(m & Hm & Hk & Hs)]; [left; exact H|right; eauto].
+Qed.
+Print Assumptions C13_claims_reported.
 
 (* non-vacuity *)
 Local Open Scope string_scope.
